@@ -37,6 +37,7 @@ type WorkerReport struct {
 	Harness     []string       `json:"harness_errors,omitempty"`
 	Leaked      int            `json:"leaked_bubbles"`
 	Known       map[string]int `json:"known"`
+	ForeignEx   []string       `json:"foreign_examples"`
 }
 
 type knownFinding struct {
@@ -239,6 +240,9 @@ func WorkerMain(t *testing.T, worldName string, world World) {
 		}
 		for _, f := range res.Foreign {
 			rep.Foreign[f.Signature()]++
+			if len(rep.ForeignEx) < 3 {
+				rep.ForeignEx = append(rep.ForeignEx, fmt.Sprintf("run %d: %s: %s", i, f.Signature(), f.Detail))
+			}
 		}
 		if res.Stats.Truncated {
 			rep.Truncated++
